@@ -8,7 +8,7 @@ Request formats (fields separated by TAB, see harness/props/c10.py):
 * `live_run   cfg  init  faults  ops`           -> per operation `err;termops` joined by `|`, then `#` final control state
 * `live_with  cfg  init  faults  ops  raiseAt`  -> `termops#raised#` final control state
 * `live_spec  cfg  init  ops`                   -> `wf;printed;lastFrame`
-cfg  = `kind,transient,W,H,redirOut,redirErr,bareBypass,startGuard,overflow`  (numbers)
+cfg  = `kind,transient,W,H,redirOut,redirErr,bareBypass,startGuard,overflow,resetShape`  (numbers)
 init = initial renderable as a line list `n:l1,l2,…`
 faults = `-` | comma separated call indices, the last one optionally `k+` (every index ≥ k)
 ops  = operations joined by `|` : `S` `X` `B` `R` `P<lines>` `U<refresh>;<lines>` `A<visible>;<desc>`
@@ -55,13 +55,14 @@ def decOverflow : String → Option Overflow
 
 def decCfg (s : String) : Option (Cfg × Overflow) :=
   match s.splitOn "," with
-  | [k, tr, w, h, ro, re, bb, sg, ov] => do
+  | [k, tr, w, h, ro, re, bb, sg, ov, rs] => do
     let kind ← decKind k
     let ov ← decOverflow ov
     let w ← w.toNat?
     let h ← h.toNat?
     some ({ kind := kind, transient := decBool tr, width := w, height := h, redirectStdout := decBool ro,
-            redirectStderr := decBool re, bareBypass := decBool bb, startGuard := decBool sg }, ov)
+            redirectStderr := decBool re, bareBypass := decBool bb, startGuard := decBool sg,
+            resetShape := decBool rs }, ov)
   | _ => none
 
 def decFaults (s : String) : Option (Nat → Bool) :=
@@ -109,7 +110,8 @@ def encShape : Option (Nat × Nat) → String
 
 def encCtl (st : St) : String :=
   ",".intercalate [encBool st.started, toString st.hooks, toString st.stdoutDepth, toString st.stderrDepth,
-    encBool st.restoreStdout.isSome, encBool st.restoreStderr.isSome, encShape st.shape, toString st.taskIndex]
+    encBool st.restoreStdout.isSome, encBool st.restoreStderr.isSome, encShape st.shape, toString st.taskIndex,
+    (match st.overflow with | .crop => "0" | .ellipsis => "1" | .visible => "2")]
 
 /-- the model covers terminals of height ≥ 1; `ellipsis` needs width ≥ 3; progress rows must fit the width -/
 def inDomain (cfg : Cfg) (ov : Overflow) (ops : List Op) : Bool :=
@@ -179,7 +181,10 @@ def handlers : List (String × (List String → String)) := [
       | some (cfg, ov), some ops =>
         if !inDomain cfg ov ops then "unmodelled" else
         let r0 := initFrame cfg init
-        encBool (wf cfg ov r0 ops) ++ ";" ++ encStrList (printed cfg ov r0 ops) ++ ";" ++ encStrList (if cfg.kind == .live then lastFrame cfg ov r0 ops else trimFrame (lastFrame cfg ov r0 ops))
+        -- printed / lastFrame are only meaningful (and only compared) for well-formed histories
+        if !wf cfg ov r0 ops then "0;0:;0:" else
+        "1;" ++ encStrList (printed cfg ov r0 ops) ++ ";" ++
+          encStrList (if cfg.kind == .live then lastFrame cfg ov r0 ops else trimFrame (lastFrame cfg ov r0 ops))
       | _, _ => "unmodelled"
     | _ => "bad-args")
 ]
